@@ -220,6 +220,10 @@ pub trait Engine: Sync + Send {
     fn property(&self) -> &'static str;
     /// generate the case (workload + config + fault plan) for this seed
     fn gen(&self, seed: u64, thorough: bool) -> Value;
+    /// case for the `index`-th run of a batch; engines with a systematic sub-batch override this
+    fn gen_indexed(&self, _index: u64, seed: u64, thorough: bool) -> Value {
+        self.gen(seed, thorough)
+    }
     fn run(&self, case: &Value, plan: &SchedPlan) -> Outcome;
     /// structurally smaller variants of the case, most aggressive first
     fn shrink(&self, case: &Value) -> Vec<Value>;
